@@ -231,8 +231,10 @@ static Boolean DecodeBitArg2(
     } else {
         ChkSpace(SegData, EvalResult.AddrSpaceMask);
 
+        /* a bit specification has room for nine address bits */
+
         if (!mFirstPassUnknown(EvalResult.Flags)
-            && !ChkRange(Addr, 0, SegLimits[SegData])) {
+            && !ChkRange(Addr, 0, (SegLimits[SegData] < 0x1ff) ? SegLimits[SegData] : 0x1ff)) {
             return False;
         }
         *pResult |= ((EvalResult.AddrSpaceMask & (1 << SegData)) ? BitFlag_Data : 0)
